@@ -173,9 +173,12 @@ func runC13(tier string) int {
 			sets = append(sets, []int{i})
 			for j := i + 1; j < c13Sites; j++ {
 				sets = append(sets, []int{i, j})
-				if tier == "thorough" {
-					for k := j + 1; k < c13Sites; k++ {
-						sets = append(sets, []int{i, j, k})
+				for k := j + 1; k < c13Sites; k++ {
+					sets = append(sets, []int{i, j, k})
+					if tier == "thorough" {
+						for l := k + 1; l < c13Sites; l++ {
+							sets = append(sets, []int{i, j, k, l})
+						}
 					}
 				}
 			}
@@ -237,5 +240,5 @@ func runC13(tier string) int {
 	r.Assume("values with parentheses are only used at sites where nested parentheses can be written out literally (command arguments, value(...))",
 		"const lines are replaced by blank lines so that line markers stay comparable")
 	return r.Finish(r.Get("evaluations"), r.Get("nontrivial"),
-		"10 definition sets (single token, multi-token, parenthesised, const from const two levels deep, hex, negative, multi-byte identifier) x every single use site, every pair (thorough: triple) and all 19 documented use sites at once (command argument incl. nested, flag/var/defeated operands, comparison values incl. value(), switch operand and case value, AutoVar argument and comparison, goto target, map-script table var/value and inline body, mart item) + 8 non-positions (command name, movement step, label, moves() step, text content, script/text/mapscripts names, raw) + use before definition + redefinition; outputs compared byte for byte with line markers on, optimize on/off; non-trivial = multi-token or chained definition")
+		"10 definition sets (single token, multi-token, parenthesised, const from const two levels deep, hex, negative, multi-byte identifier) x every single use site, every pair and triple (thorough: quadruple) and all 19 documented use sites at once (command argument incl. nested, flag/var/defeated operands, comparison values incl. value(), switch operand and case value, AutoVar argument and comparison, goto target, map-script table var/value and inline body, mart item) + 8 non-positions (command name, movement step, label, moves() step, text content, script/text/mapscripts names, raw) + use before definition + redefinition; outputs compared byte for byte with line markers on, optimize on/off; non-trivial = multi-token or chained definition")
 }
